@@ -260,9 +260,221 @@ Fixpoint enc_seq (l : list tv) : Res (list Z) :=
   | x :: r => a <- enc_tv x ;; b <- enc_seq r ;; Ok (a ++ b)
   end.
 
+(* ---------- message values, push_* as trees, canonical dumps (added for the round-trip theorems) ----
+   One record per dataclass; [tree_X m] is what push_X(buf, m) writes, as a push_block / push_uintN /
+   push_bytes tree (encoded by enc_seq: OverflowError when a block does not fit its length prefix);
+   [dump_X m] is the token dump of the dataclass, the same dump pull_X returns above.
+   str attributes are their ASCII bytes.  Attributes typed Optional[list] that push_X iterates
+   unconditionally (ClientHello.key_share / supported_versions / signature_algorithms /
+   supported_groups, CertificateRequest.signature_algorithms) are plain lists here: None raises
+   TypeError in push_list and is outside this model. *)
+Definition ext := (Z * list Z)%type.                 (* other_extensions entry / KeyShareEntry *)
+
+Definition t_opaque (cap : nat) (d : list Z) : tv := TBlock cap [TBytes d].
+Definition t_uints (cap w : nat) (l : list Z) : tv := TBlock cap (flat_map (fun v => [TInt w v]) l).
+Definition t_ext (ty : Z) (items : list tv) : list tv := [TInt 2 ty; TBlock 2 items].
+Definition t_others (l : list ext) : list tv := flat_map (fun e : ext => t_ext (fst e) [TBytes (snd e)]) l.
+Definition t_opt {A} (f : A -> list tv) (o : option A) : list tv := match o with Some a => f a | None => [] end.
+Definition t_ks (k : ext) : list tv := [TInt 2 (fst k); t_opaque 2 (snd k)].
+Definition t_opaques (cap lcap : nat) (l : list (list Z)) : tv := TBlock cap (flat_map (fun d => [t_opaque lcap d]) l).
+
+Definition dump_opt {A} (f : A -> list Z) (o : option A) : list Z := match o with Some a => 1 :: f a | None => [0] end.
+Definition dump_list {A} (f : A -> list Z) (l : list A) : list Z := Zlen l :: flat_map f l.
+Definition dump_ints (l : list Z) : list Z := dump_list (fun v => [v]) l.
+Definition dump_ext (e : ext) : list Z := fst e :: out_bytes (snd e).
+Definition dump_flag (b : bool) : list Z := if b then [1] else [0].
+
+Record client_hello := mkCH {
+  ch_random : list Z; ch_session_id : list Z; ch_cipher_suites : list Z; ch_compression_methods : list Z;
+  ch_key_share : list ext; ch_supported_versions : list Z; ch_signature_algorithms : list Z;
+  ch_supported_groups : list Z; ch_psk_key_exchange_modes : option (list Z);
+  ch_server_name : option (list Z); ch_alpn_protocols : option (list (list Z)); ch_early_data : bool;
+  ch_pre_shared_key : option (list (list Z * Z) * list (list Z));     (* identities, binders *)
+  ch_other_extensions : list ext }.
+
+Definition t_psk_identity (i : list Z * Z) : list tv := [t_opaque 2 (fst i); TInt 4 (snd i)].
+Definition t_offered_psks (p : list (list Z * Z) * list (list Z)) : list tv :=
+  [TBlock 2 (flat_map t_psk_identity (fst p)); t_opaques 2 1 (snd p)].
+
+Definition ch_exts (m : client_hello) : list tv :=
+  t_ext 51 [TBlock 2 (flat_map t_ks (ch_key_share m))] ++
+  t_ext 43 [t_uints 1 2 (ch_supported_versions m)] ++
+  t_ext 13 [t_uints 2 2 (ch_signature_algorithms m)] ++
+  t_ext 10 [t_uints 2 2 (ch_supported_groups m)] ++
+  t_opt (fun l => t_ext 45 [t_uints 1 1 l]) (ch_psk_key_exchange_modes m) ++
+  t_opt (fun n => t_ext 0 [TBlock 2 [TInt 1 0; t_opaque 2 n]]) (ch_server_name m) ++
+  t_opt (fun l => t_ext 16 [t_opaques 2 1 l]) (ch_alpn_protocols m) ++
+  t_others (ch_other_extensions m) ++
+  (if ch_early_data m then t_ext 42 [] else []) ++
+  t_opt (fun p => t_ext 41 (t_offered_psks p)) (ch_pre_shared_key m).
+
+Definition tree_client_hello (m : client_hello) : list tv :=
+  [TInt 1 1; TBlock 3 [TInt 2 0x0303; TBytes (ch_random m); t_opaque 1 (ch_session_id m);
+                       t_uints 2 2 (ch_cipher_suites m); t_uints 1 1 (ch_compression_methods m);
+                       TBlock 2 (ch_exts m)]].
+
+Definition dump_psk_identity (i : list Z * Z) : list Z := out_bytes (fst i) ++ [snd i].
+Definition dump_client_hello (m : client_hello) : list Z :=
+  out_bytes (ch_random m) ++ out_bytes (ch_session_id m) ++ dump_ints (ch_cipher_suites m) ++
+  dump_ints (ch_compression_methods m) ++
+  (1 :: dump_list dump_ext (ch_key_share m)) ++ (1 :: dump_ints (ch_supported_versions m)) ++
+  (1 :: dump_ints (ch_signature_algorithms m)) ++ (1 :: dump_ints (ch_supported_groups m)) ++
+  dump_opt dump_ints (ch_psk_key_exchange_modes m) ++ dump_opt out_bytes (ch_server_name m) ++
+  dump_opt (dump_list out_bytes) (ch_alpn_protocols m) ++ dump_flag (ch_early_data m) ++
+  dump_opt (fun p => dump_list dump_psk_identity (fst p) ++ dump_list out_bytes (snd p)) (ch_pre_shared_key m) ++
+  dump_list dump_ext (ch_other_extensions m).
+
+Record server_hello := mkSH {
+  sh_random : list Z; sh_session_id : list Z; sh_cipher_suite : Z; sh_compression_method : Z;
+  sh_supported_version : option Z; sh_key_share : option ext; sh_pre_shared_key : option Z;
+  sh_other_extensions : list ext }.
+
+Definition sh_exts (m : server_hello) : list tv :=
+  t_opt (fun v => t_ext 43 [TInt 2 v]) (sh_supported_version m) ++
+  t_opt (fun k => t_ext 51 (t_ks k)) (sh_key_share m) ++
+  t_opt (fun v => t_ext 41 [TInt 2 v]) (sh_pre_shared_key m) ++
+  t_others (sh_other_extensions m).
+
+Definition tree_server_hello (m : server_hello) : list tv :=
+  [TInt 1 2; TBlock 3 [TInt 2 0x0303; TBytes (sh_random m); t_opaque 1 (sh_session_id m);
+                       TInt 2 (sh_cipher_suite m); TInt 1 (sh_compression_method m); TBlock 2 (sh_exts m)]].
+
+Definition dump_server_hello (m : server_hello) : list Z :=
+  out_bytes (sh_random m) ++ out_bytes (sh_session_id m) ++ [sh_cipher_suite m; sh_compression_method m] ++
+  dump_opt (fun v => [v]) (sh_supported_version m) ++ dump_opt dump_ext (sh_key_share m) ++
+  dump_opt (fun v => [v]) (sh_pre_shared_key m) ++ dump_list dump_ext (sh_other_extensions m).
+
+Record new_session_ticket := mkNST {
+  nst_lifetime : Z; nst_age_add : Z; nst_nonce : list Z; nst_ticket : list Z;
+  nst_max_early_data_size : option Z; nst_other_extensions : list ext }.
+
+Definition nst_exts (m : new_session_ticket) : list tv :=
+  t_opt (fun v => t_ext 42 [TInt 4 v]) (nst_max_early_data_size m) ++ t_others (nst_other_extensions m).
+
+Definition tree_new_session_ticket (m : new_session_ticket) : list tv :=
+  [TInt 1 4; TBlock 3 [TInt 4 (nst_lifetime m); TInt 4 (nst_age_add m); t_opaque 1 (nst_nonce m);
+                       t_opaque 2 (nst_ticket m); TBlock 2 (nst_exts m)]].
+
+Definition dump_new_session_ticket (m : new_session_ticket) : list Z :=
+  [nst_lifetime m; nst_age_add m] ++ out_bytes (nst_nonce m) ++ out_bytes (nst_ticket m) ++
+  dump_opt (fun v => [v]) (nst_max_early_data_size m) ++ dump_list dump_ext (nst_other_extensions m).
+
+Record encrypted_extensions := mkEE {
+  ee_alpn_protocol : option (list Z); ee_early_data : bool; ee_other_extensions : list ext }.
+
+Definition ee_exts (m : encrypted_extensions) : list tv :=
+  t_opt (fun a => t_ext 16 [t_opaques 2 1 [a]]) (ee_alpn_protocol m) ++
+  (if ee_early_data m then t_ext 42 [] else []) ++ t_others (ee_other_extensions m).
+
+Definition tree_encrypted_extensions (m : encrypted_extensions) : list tv :=
+  [TInt 1 8; TBlock 3 [TBlock 2 (ee_exts m)]].
+
+Definition dump_encrypted_extensions (m : encrypted_extensions) : list Z :=
+  dump_opt out_bytes (ee_alpn_protocol m) ++ dump_flag (ee_early_data m) ++ dump_list dump_ext (ee_other_extensions m).
+
+Record certificate := mkCert { cert_request_context : list Z; cert_certificates : list (list Z * list Z) }.
+
+Definition t_cert_entry (e : list Z * list Z) : list tv := [t_opaque 3 (fst e); t_opaque 2 (snd e)].
+Definition tree_certificate (m : certificate) : list tv :=
+  [TInt 1 11; TBlock 3 [t_opaque 1 (cert_request_context m); TBlock 3 (flat_map t_cert_entry (cert_certificates m))]].
+Definition dump_cert_entry (e : list Z * list Z) : list Z := out_bytes (fst e) ++ out_bytes (snd e).
+Definition dump_certificate (m : certificate) : list Z :=
+  out_bytes (cert_request_context m) ++ dump_list dump_cert_entry (cert_certificates m).
+
+Record certificate_request := mkCR {
+  cr_request_context : list Z; cr_signature_algorithms : list Z; cr_other_extensions : list ext }.
+
+Definition cr_exts (m : certificate_request) : list tv :=
+  t_ext 13 [t_uints 2 2 (cr_signature_algorithms m)] ++ t_others (cr_other_extensions m).
+Definition tree_certificate_request (m : certificate_request) : list tv :=
+  [TInt 1 13; TBlock 3 [t_opaque 1 (cr_request_context m); TBlock 2 (cr_exts m)]].
+Definition dump_certificate_request (m : certificate_request) : list Z :=
+  out_bytes (cr_request_context m) ++ (1 :: dump_ints (cr_signature_algorithms m)) ++
+  dump_list dump_ext (cr_other_extensions m).
+
+Record certificate_verify := mkCV { cv_algorithm : Z; cv_signature : list Z }.
+Definition tree_certificate_verify (m : certificate_verify) : list tv :=
+  [TInt 1 15; TBlock 3 [TInt 2 (cv_algorithm m); t_opaque 2 (cv_signature m)]].
+Definition dump_certificate_verify (m : certificate_verify) : list Z := cv_algorithm m :: out_bytes (cv_signature m).
+
+Definition tree_finished (verify_data : list Z) : list tv := [TInt 1 20; t_opaque 3 verify_data].
+
+(* dump tokens -> record (input of the executable interface) *)
+Fixpoint tk_n {A} (f : list Z -> A * list Z) (n : nat) (t : list Z) : list A * list Z :=
+  match n with
+  | O => ([], t)
+  | S n' => let '(a, t1) := f t in let '(l, t2) := tk_n f n' t1 in (a :: l, t2)
+  end.
+Definition tk_cnt {A} (f : list Z -> A * list Z) (t : list Z) : list A * list Z :=
+  match t with n :: t' => tk_n f (Z.to_nat n) t' | [] => ([], []) end.
+Definition tk_optv {A} (f : list Z -> A * list Z) (t : list Z) : option A * list Z :=
+  match t with
+  | 0 :: t' => (None, t')
+  | _ :: t' => let '(a, t'') := f t' in (Some a, t'')
+  | [] => (None, [])
+  end.
+Definition tk_z (t : list Z) : Z * list Z := match t with v :: t' => (v, t') | [] => (0, []) end.
+Definition tk_flag (t : list Z) : bool * list Z := match t with v :: t' => (z2b v, t') | [] => (false, []) end.
+Definition tk_ext (t : list Z) : ext * list Z :=
+  let '(g, t1) := tk_z t in let '(d, t2) := tk_list t1 in ((g, d), t2).
+Definition tk_psk_identity (t : list Z) : (list Z * Z) * list Z :=
+  let '(d, t1) := tk_list t in let '(a, t2) := tk_z t1 in ((d, a), t2).
+Definition tk_pair (t : list Z) : (list Z * list Z) * list Z :=
+  let '(a, t1) := tk_list t in let '(b, t2) := tk_list t1 in ((a, b), t2).
+Definition tk_psks (t : list Z) : (list (list Z * Z) * list (list Z)) * list Z :=
+  let '(ids, t1) := tk_cnt tk_psk_identity t in let '(bd, t2) := tk_cnt tk_list t1 in ((ids, bd), t2).
+Definition dflt {A} (o : option (list A)) : list A := match o with Some l => l | None => [] end.
+
+Definition tk_client_hello (t : list Z) : client_hello :=
+  let '(random, t) := tk_list t in let '(sid, t) := tk_list t in
+  let '(cs, t) := tk_list t in let '(cm, t) := tk_list t in
+  let '(ks, t) := tk_optv (tk_cnt tk_ext) t in let '(sv, t) := tk_optv tk_list t in
+  let '(sa, t) := tk_optv tk_list t in let '(sg, t) := tk_optv tk_list t in
+  let '(modes, t) := tk_optv tk_list t in let '(sni, t) := tk_optv tk_list t in
+  let '(alpn, t) := tk_optv (tk_cnt tk_list) t in let '(early, t) := tk_flag t in
+  let '(psk, t) := tk_optv tk_psks t in let '(other, _) := tk_cnt tk_ext t in
+  mkCH random sid cs cm (dflt ks) (dflt sv) (dflt sa) (dflt sg) modes sni alpn early psk other.
+
+Definition tk_server_hello (t : list Z) : server_hello :=
+  let '(random, t) := tk_list t in let '(sid, t) := tk_list t in
+  let '(cs, t) := tk_z t in let '(cm, t) := tk_z t in
+  let '(sv, t) := tk_optv tk_z t in let '(ks, t) := tk_optv tk_ext t in let '(psk, t) := tk_optv tk_z t in
+  let '(other, _) := tk_cnt tk_ext t in mkSH random sid cs cm sv ks psk other.
+
+Definition tk_new_session_ticket (t : list Z) : new_session_ticket :=
+  let '(lt, t) := tk_z t in let '(aa, t) := tk_z t in let '(nonce, t) := tk_list t in
+  let '(ticket, t) := tk_list t in let '(med, t) := tk_optv tk_z t in
+  let '(other, _) := tk_cnt tk_ext t in mkNST lt aa nonce ticket med other.
+
+Definition tk_encrypted_extensions (t : list Z) : encrypted_extensions :=
+  let '(alpn, t) := tk_optv tk_list t in let '(early, t) := tk_flag t in
+  let '(other, _) := tk_cnt tk_ext t in mkEE alpn early other.
+
+Definition tk_certificate (t : list Z) : certificate :=
+  let '(ctx, t) := tk_list t in let '(certs, _) := tk_cnt tk_pair t in mkCert ctx certs.
+
+Definition tk_certificate_request (t : list Z) : certificate_request :=
+  let '(ctx, t) := tk_list t in let '(sa, t) := tk_optv tk_list t in
+  let '(other, _) := tk_cnt tk_ext t in mkCR ctx (dflt sa) other.
+
+Definition tk_certificate_verify (t : list Z) : certificate_verify :=
+  let '(alg, t) := tk_z t in let '(sig, _) := tk_list t in mkCV alg sig.
+
+(* push_X of the message given as its dump: (tree, dump recomputed from the record) *)
+Definition push_of_dump (kind : Z) (t : list Z) : list tv * list Z :=
+  if kind =? 1 then let m := tk_client_hello t in (tree_client_hello m, dump_client_hello m)
+  else if kind =? 2 then let m := tk_server_hello t in (tree_server_hello m, dump_server_hello m)
+  else if kind =? 4 then let m := tk_new_session_ticket t in (tree_new_session_ticket m, dump_new_session_ticket m)
+  else if kind =? 8 then let m := tk_encrypted_extensions t in (tree_encrypted_extensions m, dump_encrypted_extensions m)
+  else if kind =? 11 then let m := tk_certificate t in (tree_certificate m, dump_certificate m)
+  else if kind =? 13 then let m := tk_certificate_request t in (tree_certificate_request m, dump_certificate_request m)
+  else if kind =? 15 then let m := tk_certificate_verify t in (tree_certificate_verify m, dump_certificate_verify m)
+  else let '(d, _) := tk_list t in (tree_finished d, out_bytes d).
+
 (* ---------- executable interface -------------------------------------------------------
      0 kind n b..   pull_<message>  (kind = handshake type: 1 2 4 8 11 13 15 20)
      1 tree         encode a tree given in prefix form: 0 w v | 1 n b.. | 2 cap k child*k
+     2 kind dump..  push_<message> of the message given as its dump: status, bytes, dump again
    output: status, dump..., bytes consumed *)
 Fixpoint tk_tv (fuel : nat) (t : list Z) : tv * list Z :=
   match fuel with
@@ -297,6 +509,9 @@ Definition exec_tls (toks : list Z) : list Z :=
       | TBlock _ items => out_res out_bytes (enc_seq items)     (* top level: the message's items in sequence *)
       | x => out_res out_bytes (enc_tv x)
       end
+  | 2 :: kind :: t =>
+      let '(tree, dump) := push_of_dump kind t in
+      out_res (fun bytes => out_bytes bytes ++ dump) (enc_seq tree)
   | _ => []
   end.
 (* EXTRACT: exec_tls *)
